@@ -82,8 +82,9 @@ func TestWorker(t *testing.T) {
 	if err != nil {
 		t.Fatal(err)
 	}
+	kinds := job.KindList(Algos)
 	mk := func(i int) (*Case, *choice.Source, *choice.Source) {
-		c := &Case{Property: "C12", Engine: "simsched", Algo: Algos[i%len(Algos)]}
+		c := &Case{Property: "C12", Engine: "simsched", Algo: kinds[i%len(kinds)]}
 		return c, choice.New(job.Seed, fmt.Sprint("c12-work-", i)), choice.New(job.Seed, fmt.Sprint("c12-sched-", i))
 	}
 	out.Watch(120 * time.Second)
